@@ -32,7 +32,10 @@ pub fn gen_case(run_seed: u64, tier: Tier) -> PfCase {
         Tier::Quick => 20000,
         Tier::Thorough => 70000,
     };
+    let huge = rng.below(if tier == Tier::Thorough { 30 } else { 100 }) == 0;
     let n = match rng.below(12) {
+        // beyond 65536 symbols (several dozen sampling periods)
+        _ if huge => *rng.pick(&[65536usize, 70000, 131072, 140001]) + rng.usize_below(3) * 2047,
         0 => rng.urange(1, 300),
         1 => 2047,
         2 => 2048,
